@@ -40,6 +40,16 @@ SMALL_B = [1, 7, 64]
 # buffer sizes of the xfrm istream / ostream in the small-buffer builds (same source text, BUFSZ replaced)
 SMALL_BX = {1: (4, 2), 7: (16, 16), 64: (23, 9)}
 HARNESS_SRC = ["h_c12.c", "h_c12_peek_istream.c", "h_c12_peek_ostream.c", "h_c12_peek_xistream.c", "h_c12_peek_xostream.c"]
+def _const(name, default):
+    """value of a generated constant (lean/Sqfs/Generated/Consts.lean is rewritten from the headers on every run)"""
+    try:
+        m = re.search(r"def %s : Nat := (\d+)" % name, (vlib.LEAN / "Sqfs/Generated/Consts.lean").read_text())
+        return int(m.group(1)) if m else default
+    except OSError:
+        return default
+
+
+ERR_COMPRESSOR = _const("errCompressor", 3)   # to recognise codec errors of the toy codec in a monitor
 STREAMK = ("istream", "xistream", "xostream")
 HARNESS_TIMEOUT = 600     # seconds per harness process; an idle machine needs < 5 s (quick) / < 60 s (thorough)
 
@@ -349,6 +359,17 @@ def never_short(sc):
                     bad.append("ostream reported success but file+pending hole differ from what was appended")
         elif not is_hard(sc["script"]):
             bad.append("ostream call failed without a hard error")
+    elif sc["kind"] == "xostream":
+        fl, ops = sc["args"]
+        if kv.get("rc") == "0@%d" % len(ops) and ops and ops[-1] == "f":
+            raw = b"".join(parse_data(o[1:]) if o[0] == "d" else (b"\0" * int(o[1:]) if o[0] == "h" else b"") for o in ops)
+            exp = bytearray()
+            for i, b in enumerate(raw):          # the toy codec: b ↦ [b, b xor (number of bytes before it mod 256)]
+                exp += bytes([b, b ^ (i % 256)])
+            if kv.get("out") != dtok(bytes(exp)):
+                bad.append("transforming ostream reported success but the file is not the encoding of what was appended")
+        elif not is_hard(sc["script"]) and kv.get("rc", "").split("@")[0] not in ("0", "-%d" % ERR_COMPRESSOR):
+            bad.append("transforming ostream call failed without a hard error")
     return bad
 
 
